@@ -329,6 +329,8 @@ fn walk_pdu(b: &[u8]) -> Vec<Field> {
     };
     let u16at = |p: usize| u16::from_be_bytes([b[p], b[p + 1]]) as usize;
     let u32at = |p: usize| u32::from_be_bytes([b[p], b[p + 1], b[p + 2], b[p + 3]]) as usize;
+    // the whole PDU as a structure (its length field is pdu_len)
+    push("pitem", 0, b.len(), -1, "pdu");
     push("pdu_type", 0, 1, b[0] as i64, "");
     push("res", 1, 1, -1, "");
     push("pdu_len", 2, 4, u32at(2) as i64, "");
